@@ -102,6 +102,14 @@ def restored(ctx, pw, cred):
         ctx.expect(r.ok and r.b(0) == o[2], "the setup restored through serde-%s answers as the live setup did" % fmt)
     d = ctx.call("dec", "ServerSetup", o[0])
     ctx.expect(d.ok and d.b(0) == o[0], "saving a restored setup gives the same bytes")
+    # two setups that differ in the seed only are different setups (for whoever compares, caches or reloads-if-changed)
+    for pos in (0, L.Nh // 2, L.Nh - 1):
+        other = o[0][:pos] + bytes([o[0][pos] ^ 0x01]) + o[0][pos + 1:]
+        q = ctx.call("dec_eq", "ServerSetup", o[0], other, impl_only=True)
+        if q is not None and q.ok:
+            ctx.expect(q.outs[0] == "0", "setups differing in seed byte %d compare unequal" % pos)
+        r2 = ctx.call("srv_reg_start", other, o[1], cred)
+        ctx.expect(r2.ok and r2.b(0)[:L.Noe] != o[2][:L.Noe], "and evaluate differently")
 
 
 def cases(tier, seed):
